@@ -140,6 +140,12 @@ def run(ctx):
         ok_e = set()
     oks = ok_assign_blocks(b, 'Ok')
     latch, lwhy = sticky_flag(fl, f_e, oks) if f_e and oks else (None, 'no not-committed edge / Ok return found')
+    if latch is None and f_e and oks:
+        ok_c, why_c = counted_event(fl, f_e, oks)
+        if ok_c:
+            latch, lwhy = 'count', why_c
+        else:
+            lwhy = '%s; %s' % (lwhy, why_c)
     ctx.check(latch is not None, 'C13.R3', 'hub_sync:conflicts->Err', 'the not-committed edge latches a variable; Ok is returned only while it is untouched',
               'a lost CAS does not make hub_sync fail (%s)' % lwhy, term_loc(b, pb))
     # a lost (or won) CAS does not end the push: the loop goes on to the next local file
